@@ -1279,3 +1279,37 @@ package cache
 //@   loop 1 invariant [C14.import.inv] forall k int :: 1 <= k && k <= calls(importCache) ==>
 //@       arg(importCache, k, 3).StatusCode == 200 && arg(importCache, k, 0) == t && allocated(arg(importCache, k, 3))
 //@   loop 1 invariant [C14.import.inv.direct] calls("WalkDumpRestorer.Restore") == 0 && u != nil
+
+// ---------------------------------------------------------------------------------------------------
+// Constructors of the trait (C11): the janitor goroutine must run on the very Trait object the cache uses - it
+// reads that object's expirationsSet counter to decide whether a cache with UnlimitedTTL needs a scan.
+// ---------------------------------------------------------------------------------------------------
+
+//@ def hasJanitor(t) := t.DeleteExpired != nil || t.Evict != nil
+
+// init sets the trait up in place and starts the background jobs on the object it was given.
+//@ func (*Trait).init
+//@   props C11
+//@   requires t != nil && t.expirationsSet == 0
+//@   requires forall j int :: 0 <= j && j < len(options) ==> options[j] != nil
+//@   ensures [C11.init.janitor] hasJanitor(t) ==> calls("go:(*Trait).janitor") == 1 && arg("go:(*Trait).janitor", 1, 0) == t
+//@   ensures [C11.init.nojanitor] !hasJanitor(t) ==> calls("go:(*Trait).janitor") == 0
+//@   ensures [C11.init.counter] t.expirationsSet == 0
+//@   loop 1 invariant [C11.init.inv] t.expirationsSet == 0 && calls("go:(*Trait).janitor") == 0
+//@   modifies H|Trait|* H|logTrait|* H|Config|* new:H|* G|alloc G|cnt|go:* G|arg|go:* G|cnt|options[] G|arg|options[]|* G|res|options[]|* @log G|chanclosed
+
+//@ func NewTrait
+//@   props C11
+//@   requires forall j int :: 0 <= j && j < len(options) ==> options[j] != nil
+//@   ensures [C11.newtrait.nonnil] result != nil && fresh(result)
+//@   ensures [C11.newtrait.janitor] hasJanitor(result) ==> calls("go:(*Trait).janitor") == 1 && arg("go:(*Trait).janitor", 1, 0) == result
+//@   ensures [C11.newtrait.nojanitor] !hasJanitor(result) ==> calls("go:(*Trait).janitor") == 0
+//@   ensures [C11.newtrait.counter] result.expirationsSet == 0
+//@   modifies new:H|* G|alloc G|cnt|go:* G|arg|go:* G|cnt|options[] G|arg|options[]|* G|res|options[]|* @log G|chanclosed
+
+//@ func NewTraitOf
+//@   props C11
+//@   requires forall j int :: 0 <= j && j < len(options) ==> options[j] != nil
+//@   ensures [C11.newtraitof.nonnil] result != nil
+//@   ensures [C11.newtraitof.janitor] hasJanitor(result.Trait) ==> calls("go:(*Trait).janitor") == 1 && arg("go:(*Trait).janitor", 1, 0) == result.Trait
+//@   replay janitorself
